@@ -1133,8 +1133,6 @@ class DestHandler:
             self.user.transaction_finished_indication(finished_indic_params)
 
     def _prepare_finished_pdu(self) -> None:
-        if self.states.packets_ready:
-            raise UnretrievedPdusToBeSent
         # TODO: Fault location handling. Set remote entity ID for file copy
         # operations cancelled with an EOF (Cancel) PDU, and the local ID for file
         # copy operations cancelled with the local API.
